@@ -848,6 +848,11 @@ static int cif_table_deserialize(struct table_value_s *table, read_buffer_tp *bu
     }
 
     FAILURE_HANDLER(hash):
+    if (temp.as_table.map.head == entry) {
+        /* uthash could not create the table for its first entry, which it nevertheless made the head */
+        free(entry->hh.tbl);
+        temp.as_table.map.head = NULL;
+    }
     cif_value_free(&(entry->as_value));
 
     FAILURE_HANDLER(value):
